@@ -98,6 +98,16 @@ func refEqStruct(s *idl.Struct, a, b *refsem.Val) bool {
 			}
 			continue
 		}
+		// a field with a declared default that was not given holds the default: the Go object
+		// cannot tell "unset" from "set to the default" (IsSet compares with the default)
+		if d := refsem.FieldDefault(f); d != nil && s.Cat != "union" {
+			if x == nil || x.T == "n" {
+				x = d
+			}
+			if y == nil || y.T == "n" {
+				y = d
+			}
+		}
 		xs, ys := x != nil && x.T != "n", y != nil && y.T != "n"
 		if f.Req != idl.ReqOptional && s.Cat != "union" {
 			// default/required scalar fields always hold a value (zero when not given)
